@@ -15,6 +15,7 @@ import (
 	"os/exec"
 	"strings"
 	"sync"
+	"syscall"
 	"time"
 
 	"github.com/google/gopacket"
@@ -78,6 +79,130 @@ func dispatcherMain() {
 			return
 		}
 	}
+}
+
+const kefdMode = "kefd"
+
+// kefdMain is a process that runs the NTS-KE server over TLS with few file descriptors to spare.
+func kefdMain() {
+	timebase.RegisterClock(sysClock{})
+	log := slog.New(slog.NewTextHandler(os.Stderr, &slog.HandlerOptions{Level: slog.LevelError}))
+	provider := ntske.NewProvider()
+	cfg := &tls.Config{Certificates: []tls.Certificate{selfSigned()}, NextProtos: []string{"ntske/1"}, MinVersion: tls.VersionTLS13}
+	server.StartNTSKEServerIP(context.Background(), log, ownAddr(8), ipPort, cfg, provider)
+	time.Sleep(100 * time.Millisecond)
+	lim := syscall.Rlimit{Cur: 64, Max: 64}
+	if err := syscall.Setrlimit(syscall.RLIMIT_NOFILE, &lim); err != nil {
+		fmt.Fprintln(os.Stderr, "setrlimit:", err)
+	}
+	fmt.Println("READY")
+	buf := make([]byte, 16)
+	for {
+		if _, err := os.Stdin.Read(buf); err != nil {
+			return
+		}
+	}
+}
+
+var auxKE *auxProc
+
+// srv.kefd: args = number of idle TCP connections, bytes each of them sends.  They are opened
+// (more than the server process has descriptors, so that its accepts fail), held, closed again;
+// then a complete key exchange must succeed.
+func (e *netEnv) runKEFD(a []val) string {
+	if auxKE == nil || !auxKE.alive() {
+		var err error
+		auxKE, err = startAuxMode(kefdMode)
+		if err != nil {
+			note("srv.kefd: " + err.Error())
+			return "0 []"
+		}
+	}
+	var conns []net.Conn
+	for i := int64(0); i < a[0].z; i++ {
+		d := &net.Dialer{Timeout: 2 * time.Second, LocalAddr: &net.TCPAddr{IP: e.peerIP}}
+		c, err := d.Dial("tcp", net.JoinHostPort(auxKE.ip.String(), "4460"))
+		if err != nil {
+			break
+		}
+		if len(a[1].b) > 0 {
+			c.Write(a[1].b)
+		}
+		conns = append(conns, c)
+	}
+	time.Sleep(300 * time.Millisecond)
+	for _, c := range conns {
+		c.Close()
+	}
+	ok := false
+	for try := 0; try < 4 && !ok && auxKE.alive(); try++ {
+		time.Sleep(time.Duration(200*(try+1)) * time.Millisecond)
+		ok = e.keExchangeTo(auxKE.ip, ntskeRequest(), true)
+	}
+	if !auxKE.alive() {
+		return lib.V("0", lib.L(lib.Bool(ok)))
+	}
+	return lib.V("1", lib.L(lib.Bool(ok)))
+}
+
+// srv.scionpar: args = sockets, datagrams per socket.  All sockets send at once SCION/UDP requests
+// with an authenticator option of the time service's SPI, every datagram claiming another source
+// AS (each makes the listener fetch a key for an AS it has not seen); then the sentinels.
+func (e *netEnv) runSCIONPar(a []val) string {
+	nsock, per := int(a[0].z), int(a[1].z)
+	dst := &net.UDPAddr{IP: e.srvIP, Port: scionPort}
+	var wg sync.WaitGroup
+	for i := 0; i < nsock; i++ {
+		wg.Add(1)
+		go func() {
+			defer wg.Done()
+			c, err := net.ListenUDP("udp4", &net.UDPAddr{IP: e.peerIP})
+			if err != nil {
+				return
+			}
+			defer c.Close()
+			var pkts [][]byte
+			for k := 0; k < per; k++ {
+				h := e.baseSpec(scionPort)
+				h.udpSrc = uint16(c.LocalAddr().(*net.UDPAddr).Port)
+				h.srcIA = uint64(0x0001ff0000100000) + uint64(i)<<8 + uint64(k) + uint64(a[2].z)<<20
+				req := make([]byte, 48)
+				req[0] = 0x23
+				if b, err := buildSCIONAuth(h, req, 0x0003007b, mockKey, k%2); err == nil {
+					pkts = append(pkts, b)
+				}
+			}
+			for _, b := range pkts {
+				c.WriteToUDP(b, dst)
+			}
+			// whatever comes back is read and dropped
+			buf := make([]byte, 4096)
+			c.SetReadDeadline(time.Now().Add(300 * time.Millisecond))
+			for {
+				if _, _, err := c.ReadFromUDP(buf); err != nil {
+					break
+				}
+			}
+		}()
+	}
+	wg.Wait()
+	var ss []string
+	s := e.nextSentinel()
+	sh := e.baseSpec(scionPort)
+	sh.udpSrc = uint16(e.sock.LocalAddr().(*net.UDPAddr).Port)
+	spkt, err := buildSCION(sh, s)
+	if err != nil {
+		panic(err)
+	}
+	_, ok := e.exchange(dst, nil, spkt, func(b []byte) bool {
+		pl, _, ok := scionPayload(b)
+		return ok && e.isSentinelReply(pl)
+	})
+	ss = append(ss, lib.Bool(ok))
+	if ok {
+		ss = append(ss, e.scionFinalSentinels()...)
+	}
+	return lib.V("1", lib.L(ss...))
 }
 
 var auxDisp *auxProc
@@ -390,6 +515,12 @@ func runClientKEStall(e *netEnv, a []val) string {
 	bounded := func(limit, margin time.Duration) (error, bool) {
 		res := make(chan error, 1)
 		ctx, cancel := context.WithTimeout(context.Background(), limit)
+		if limit == 0 {
+			// a context without deadline (as the command-line tools pass): the key exchange must
+			// give up on its own after its exchange timeout of 5 s
+			ctx, cancel = context.WithCancel(context.Background())
+			limit = 5 * time.Second
+		}
 		go func() {
 			defer cancel()
 			res <- measure(ctx)
@@ -401,7 +532,11 @@ func runClientKEStall(e *netEnv, a []val) string {
 			return nil, false
 		}
 	}
-	_, r1 := bounded(500*time.Millisecond, 10*time.Second)
+	first := 500 * time.Millisecond
+	if len(a) > 2 && a[2].z == 1 {
+		first = 0
+	}
+	_, r1 := bounded(first, 10*time.Second)
 	// the server answers properly from now on
 	p.mu.Lock()
 	p.stall = 0
@@ -660,6 +795,14 @@ func (g *gen) genThird() {
 	for i := 0; i < len(dd); i += 5 {
 		g.add("srv.dispatcher", "nt", bl(dd[i:min(i+5, len(dd))]...))
 	}
+	// more idle TCP connections on the NTS-KE port than the server process has descriptors
+	g.add("srv.kefd", "nt", lib.V("200", lib.B(nil)))
+	g.add("srv.kefd", "nt", lib.V("120", lib.B([]byte{0x16, 3, 1})))
+	g.add("srv.kefd", "nt", lib.V("70", lib.B(nil)))
+	// 32 sockets at once, every datagram from another source AS
+	for i := 0; i < g.n(3, 12); i++ {
+		g.add("srv.scionpar", "nt", lib.V("32", lib.I(int64(g.n(40, 120))), lib.I(int64(i))))
+	}
 	// SCION paths with info and hop fields (one segment of two hops; two segments)
 	for _, raw := range [][]byte{hopPath(1, 2, 0, 0), hopPath(0, 2, 0, 0), hopPath(1, 2, 2, 0), hopPath(3, 2, 2, 0), hopPath(1, 3, 0, 0)} {
 		for _, scmp := range []int{0, int(slayers.SCMPTypeEchoRequest)} {
@@ -826,6 +969,12 @@ func runClientKEStallQUIC(e *netEnv, a []val) string {
 	bounded := func(limit, margin time.Duration) (error, bool) {
 		res := make(chan error, 1)
 		ctx, cancel := context.WithTimeout(context.Background(), limit)
+		if limit == 0 {
+			// a context without deadline (as the command-line tools pass): the key exchange must
+			// give up on its own after its exchange timeout of 5 s
+			ctx, cancel = context.WithCancel(context.Background())
+			limit = 5 * time.Second
+		}
 		go func() {
 			defer cancel()
 			res <- measure(ctx)
@@ -838,7 +987,12 @@ func runClientKEStallQUIC(e *netEnv, a []val) string {
 		}
 	}
 	t0 := time.Now()
-	_, r1 := bounded(500*time.Millisecond, 10*time.Second)
+	first := 500 * time.Millisecond
+	if len(a) > 1 && a[1].z == 1 {
+		first = 0
+		t0 = t0.Add(5 * time.Second)
+	}
+	_, r1 := bounded(first, 10*time.Second)
 	// from now on the key-exchange peer answers properly; the client's next exchanges must not be
 	// held up by the stalled one for longer than the margin
 	kp.mu.Lock()
